@@ -78,10 +78,13 @@ struct input
 
 inline void fresh_input(input &in, unsigned const n)
 {
-  static char const *const names[] = {"c0", "c1", "c2", "c3", "c4", "c5", "c6"};
   in.n = n;
   for (unsigned i = 0; i < n; ++i)
-    in.b[i] = static_cast<char>(verif_u8(names[i]));
+  {
+    // names built at run time (a constant table of strings may become a relative lookup table in the IR)
+    char const name[3] = {'c', static_cast<char>('0' + i), 0};
+    in.b[i] = static_cast<char>(verif_u8(name));
+  }
   for (unsigned i = n; i <= max_len; ++i)
     in.b[i] = 0;
 }
@@ -120,6 +123,11 @@ struct vtag<unsigned>
   static constexpr u64 value = 1002;
 };
 template <>
+struct vtag<unsigned short>
+{
+  static constexpr u64 value = 1102;
+};
+template <>
 struct vtag<int>
 {
   static constexpr u64 value = 1003;
@@ -148,6 +156,8 @@ struct vtag<fcppt::optional::object<char>>
 inline void enc(rec &, fcppt::unit const &) {}
 inline void enc(rec &r, char const c) { r.push(static_cast<unsigned char>(c)); }
 inline void enc(rec &r, unsigned const c) { r.push(c); }
+inline void enc(rec &r, unsigned short const c) { r.push(c); }
+inline void enc(rec &r, short const c) { r.push(static_cast<u64>(static_cast<std::int64_t>(c))); }
 inline void enc(rec &r, int const c) { r.push(static_cast<u64>(static_cast<std::int64_t>(c))); }
 inline void enc(rec &r, std::string const &s);
 template <typename T>
